@@ -29,6 +29,7 @@ func init() {
 		},
 		Controls: []Control{
 			{Name: "search window ends early", File: "kernel/device/acpi/acpi.go", Old: "rsdpLocationHi  uintptr = 0xfffff", New: "rsdpLocationHi  uintptr = 0xfffdf", Expect: "C14.R3 search-window"},
+			{Name: "table map kept across enumerations (seed C14-13)", File: "kernel/device/acpi/acpi.go", Old: "\tdrv.tableMap = make(map[string]*table.SDTHeader)\n", New: "\tif drv.tableMap == nil {\n\t\tdrv.tableMap = make(map[string]*table.SDTHeader)\n\t}\n", Expect: "C14.R1 fresh-map"},
 			{Name: "insert before the error test", File: "kernel/device/acpi/acpi.go",
 				Old: "\t\tif header, _, err = mapACPITable(addr); err != nil {\n", New: "\t\tif header, _, err = mapACPITable(addr); header != nil {\n\t\t\tdrv.tableMap[string(header.Signature[:])] = header\n\t\t}\n\t\tif err != nil {\n", Expect: "C14.R1"},
 			{Name: "checksum result ignored in mapACPITable", File: "kernel/device/acpi/acpi.go",
@@ -167,6 +168,40 @@ func runC14(c *Ctx) {
 		})
 		c.check(nilErr, "C14.R1", key, "stores the header of a mapACPITable call whose error is nil on every path to the insert",
 			"a table is registered on a path on which the error of the mapACPITable call that produced it has not been tested nil (bad-checksum tables can be registered)", ge.posOf(n))
+	}
+	// a table is registered only if it is valid now: every enumeration starts
+	// from an empty map (a table whose checksum has gone bad since an earlier
+	// enumeration is not found in it any more). Not decided when the function
+	// removes entries itself (delete), which is another way to the same end.
+	{
+		isFresh := func(k int) bool {
+			st, ok := ge.Ins[k].(*ssa.Store)
+			if !ok {
+				return false
+			}
+			if f, rest := lastField(accessPath(st.Addr)); f != tableMapF || rest != "" {
+				return false
+			}
+			_, ok = strip(st.Val).(*ssa.MakeMap)
+			return ok
+		}
+		deletes := false
+		for _, in := range ge.Ins {
+			if call, ok := in.(*ssa.Call); ok {
+				if bi, ok := call.Common().Value.(*ssa.Builtin); ok && bi.Name() == "delete" && isLoadOfField(call.Common().Args[0], tableMapF) {
+					deletes = true
+				}
+			}
+		}
+		for n, in := range ge.Ins {
+			mu, ok := in.(*ssa.MapUpdate)
+			if !ok || !isLoadOfField(mu.Map, tableMapF) {
+				continue
+			}
+			fresh, _ := ge.MustPassBefore(n, isFresh)
+			c.check(fresh || deletes, "C14.R1", "fresh-map "+m.fnName(enum), "every path to an insert passes tableMap = make(...): an enumeration starts from an empty map",
+				"an insert is reachable without tableMap having been replaced by a new map in this enumeration: tables registered by an earlier enumeration stay registered although their bytes may no longer sum to zero", ge.posOf(n))
+		}
 	}
 	// any MapUpdate on tableMap elsewhere in the kernel
 	m.eachInstr(func(fn *ssa.Function, in ssa.Instruction) {
